@@ -12,7 +12,7 @@ for w in json.load(open('/verif/witnesses/index.json')):
     props=sorted({x['property'] for x in json.load(open('/verif/witnesses/index.json')) if x['id']==w['id']})
     print(w['id'],w['patch'],'-R' if w['reverse'] else '-', ','.join(props))
 PY
-cat /tmp/wit_list.txt | xargs -P 6 -L 1 sh -c 'f=""; [ "$2" = "-R" ] && f="-R"; bin/elyslint omatrix $f $1 > /tmp/wit_$0.out 2>&1'
+cat /tmp/wit_list.txt | xargs -P ${PAR:-6} -L 1 sh -c 'f=""; [ "$2" = "-R" ] && f="-R"; bin/elyslint omatrix $f $1 > /tmp/wit_$0.out 2>&1'
 miss=0
 while read id patch rev props; do
   ok=0
